@@ -3,7 +3,7 @@
    run_join = close_trace of it is what the runner executes against the crate), closed by `exact`, with their assumptions. *)
 From Coq Require Import List Arith Bool.
 Import ListNotations.
-Require Import ScanFull InstsFull ObligJoin C04Join C11Groups C05Join C04When.
+Require Import ScanFull InstsFull Monitors ObligJoin C04Join C11Groups C05Join C04When.
 
 (* For every number of children, every child behaviour (scripts of arbitrary answers and wake-ups), every history of
    polls / wake-ups / drop, both waker strategies, slice (array, Vec) and tuple variants: as long as the join has not been
@@ -49,3 +49,10 @@ Example C04_witness :
   let w := join_world true false false scs [OPollFresh; OFire 0 0; OPollFresh] in
   dropped _ w = false /\ results (strip (tr _ w)) = [OVals [7; 9]].
 Proof. vm_compute. split; reflexivity. Qed.
+
+(* the same statement as a boolean predicate over the observable trace (c05_b_spec: it is equivalent to the disjunction above); this is the function
+   that runner/montool.ml evaluates on every trace of the crate *)
+Theorem C04_result_predicate_holds selective tryj tuple scs ops : let w := join_world selective tryj tuple scs ops in
+  dropped _ w = false -> c05_b tryj (length scs) (strip (tr _ w)) = true.
+Proof. exact (c05_b_holds selective tryj tuple scs ops). Qed.
+Print Assumptions C04_result_predicate_holds.
